@@ -109,7 +109,8 @@ Offer(m, dst, en) ==
        IF dst = "mc"
        THEN IF SR(x) = 2 /\ x.grace > 0 THEN m1            \* queued before the stop, leaves before the StopOffer
             ELSE IF x.owed # <<>>
-            THEN [m1 EXCEPT !.x[i].owed = Tail(@), !.x[i].sure = TRUE,
+            \* (while a StopOffer of the previous incarnation may still come, an offer proves nothing about this one)
+            THEN [m1 EXCEPT !.x[i].owed = Tail(@), !.x[i].sure = IF SR(x) = 1 THEN @ ELSE TRUE,
                             !.x[i].maybe = IF SR(x) = 1 THEN Append(@, Head(x.owed)) ELSE @]
             ELSE IF x.grace > 0 THEN m1
             ELSE Fail(m1, IF x.nextq = NotRunning THEN "offer_after_stop" ELSE "unscheduled_multicast_offer")
